@@ -45,6 +45,20 @@ Theorem C10_fixed_is_layer : forall (S : Type) (r : @rd S),
   hop r = None -> snd (read r) = fixed_layer (bsize r) (fun k => snd (lim_read r k)).
 Proof. exact (@read_fixed_is_fixed_layer). Qed.
 
+(** the overlap reader of the composed model is the generator _iter_blocks_with_overlap, one resumption per read: [ov_first] then
+    [ov_next] over the limiter -- the functions the generator is proved equal to by translation on every run (TieReader.v) *)
+Theorem C10_overlap_first_is_generator : forall (S : Type) (r : @rd S) H,
+  hop r = Some H -> gen r = GInit ->
+  snd (read r) = snd (ov_first (bsize r) H (fun k => snd (lim_read r k)))
+  /\ gen (fst (read r)) = fst (ov_first (bsize r) H (fun k => snd (lim_read r k))).
+Proof. exact (@read_overlap_first). Qed.
+
+Theorem C10_overlap_next_is_generator : forall (S : Type) (r : @rd S) H c,
+  hop r = Some H -> gen r = GRun c ->
+  snd (read r) = snd (ov_next H c (fun k => snd (lim_read r k)))
+  /\ gen (fst (read r)) = fst (ov_next H c (fun k => snd (lim_read r k))).
+Proof. exact (@read_overlap_next). Qed.
+
 Print Assumptions C10_fixed.
 Print Assumptions C10_fixed_concat.
 Print Assumptions C10_overlap.
@@ -53,3 +67,5 @@ Print Assumptions C10_overlap_last_nonempty.
 Print Assumptions C10_limit.
 Print Assumptions C10_limiter_is_layer.
 Print Assumptions C10_fixed_is_layer.
+Print Assumptions C10_overlap_first_is_generator.
+Print Assumptions C10_overlap_next_is_generator.
